@@ -249,6 +249,14 @@ def check_call(u, method_name, call_args, call_kwargs, exp_route, exp_ns, exp_ar
     return bad
 
 
+def build(cls, values):
+    """The expected argument: an instance whose fields are assigned one by one (independent of constructor parameter order)."""
+    inst = cls()
+    for k, v in values.items():
+        setattr(inst, k, v)
+    return inst
+
+
 def method_name_for(ns, rname, ver, suffix=''):
     return '%s_%s%s%s' % (ns, rname, suffix, '_v%d' % ver if ver != 1 else '')
 
@@ -319,7 +327,7 @@ def task(item):
             dflt = {f: pyval(u, KINDS[k][2]) for f, k in opt}
             # all positional
             ordered = [f for f, k in req] + [f for f, k in opt]
-            exp_arg = cls(**vals)
+            exp_arg = build(cls, vals)
             record(check_call(u, mname, lead_vals + [vals[f] for f in ordered], {}, route_obj, 'rt', exp_arg, body, dep is not None, res == 'Void', to_file, base_inputs),
                    dict(base_inputs, method=mname, call='all-positional'))
             # all keyword
@@ -331,7 +339,7 @@ def task(item):
             record(check_call(u, mname, [], kw, route_obj, 'rt', exp_arg, body, dep is not None, res == 'Void', to_file, base_inputs),
                    dict(base_inputs, method=mname, call='all-keyword'))
             # required only: optional parameters take the spec defaults
-            exp_req = cls(**dict({f: vals[f] for f, k in req}, **{f: v for f, v in dflt.items() if v is not None}))
+            exp_req = build(cls, dict({f: vals[f] for f, k in req}, **{f: v for f, v in dflt.items() if v is not None}))
             record(check_call(u, mname, lead_vals + [vals[f] for f, k in req], {}, route_obj, 'rt', exp_req, body, dep is not None, res == 'Void', to_file, base_inputs),
                    dict(base_inputs, method=mname, call='required-only'))
     elif kind == 'extra':
@@ -365,8 +373,8 @@ def task(item):
         req0 = [f for f, k in a0_fields if not KINDS[k][4]]
         opt0 = [f for f, k in a0_fields if KINDS[k][4]]
         bi = {'shape_class': 'namespace-without-types'}
-        record(check_call(u, 'noty_imp', [vals[f] for f in req0 + opt0], {}, noty.imp, 'noty', rt.A0(**vals), None, False, False, False, bi), dict(bi, method='noty_imp'))
-        record(check_call(u, 'noty_imp_v2', ['BYTES', 4], {}, noty.imp_v2, 'noty', other.Oarg(o=4, m=other.Xmode.on), 'BYTES', False, True, False, bi), dict(bi, method='noty_imp_v2'))
+        record(check_call(u, 'noty_imp', [vals[f] for f in req0 + opt0], {}, noty.imp, 'noty', build(rt.A0, vals), None, False, False, False, bi), dict(bi, method='noty_imp'))
+        record(check_call(u, 'noty_imp_v2', ['BYTES', 4], {}, noty.imp_v2, 'noty', build(other.Oarg, {'o': 4, 'm': other.Xmode.on}), 'BYTES', False, True, False, bi), dict(bi, method='noty_imp_v2'))
         record(check_call(u, 'noty_allvoid', [], {}, noty.allvoid, 'noty', None, None, False, True, False, bi), dict(bi, method='noty_allvoid'))
         record(check_call(u, 'noty_uni', [rt.Uarg.ua], {}, noty.uni, 'noty', rt.Uarg.ua, None, True, True, False, bi), dict(bi, method='noty_uni'))
         # exactly one method per route version (+ _to_file for download style)
